@@ -52,6 +52,8 @@ def slice_keep(tier: str):
                     and m["def"] in ("plain", "two_diff", "chain", "perm", "neg", "choice_cond", "disj", "bounds",
                                      "dneg_loop", "pos_loop", "fact_and_rule"))
         if fam == "C09":
+            if m["cons"].startswith(("dneg_head", "classneg_")):
+                return False  # owner-check shapes (wave 7), not part of the composite slice
             return m["prod"] == "choice" and m["mid"] in ("none", "copy_swap", "copy_rep", "copy_chain", "copy_proj",
                                                           "once_var", "choice_copy", "copy_three")
         if fam == "C10":
@@ -71,10 +73,14 @@ def slice_keep(tier: str):
         if fam == "C14":
             # every third program (by job id) of the two-literal rX/pq programs: math is the slowest pass
             # (negated aggregates always, also in the weak-constraint context)
+            if any(l.count(";") >= 2 for l in m["lits"]):
+                return False  # three-part composite literals (wave 7) stay in the owner check
             neg = any(l.startswith("not ") and "#" in l and l.count("<") >= 2 for l in m["lits"])  # two-sided
             return (m["binders"] == "pq" and len(m["lits"]) == 2
                     and ((m["ctx"] == "rX" and (neg or int(j["id"][:6], 16) % 3 == 0)) or (m["ctx"] == "w" and neg)))
         if fam == "C16":
+            if any("-|" in l or "-(" in l for l in m["lits"]):
+                return False  # nested unary operations (wave 7) stay in the owner check
             return m["head"] == "h2b" and len(m["lits"]) == 3
         return True
 
